@@ -127,7 +127,7 @@ func firstDiff(a, b [][]gen.Triple) (col int, idx int, desc string) {
 }
 
 func RunC03(ctx *core.Ctx) {
-	ctx.SetRule("catalogue of generated Go struct types (required/optional-tag/pointer/slice/list/nested list/struct/pointer-to-struct/slice-of-struct leaves of all physical kinds) x random rows with null-run patterns around multiples of 8 and 64 x write batchings x 6 ingestion paths; expected streams from the harness reference shredder, which is compared row by row with the Lean `shred` (theorem assemble_shred); non-trivial = at least one optional or repeated leaf column holding both null and non-null entries")
+	ctx.SetRule("catalogue of generated Go struct types (required/optional-tag/pointer/slice/list/nested list/struct/pointer-to-struct/slice-of-struct leaves of all physical kinds) x random rows with null-run patterns around multiples of 8 and 64 x write batchings x 6 ingestion paths; expected streams from the harness reference shredder, which is compared row by row with the Lean `shred` (theorem assemble_shred); non-trivial = at least one optional or repeated leaf column holding both null and non-null entries; " + c03nsRule)
 	ncases := ctx.Scale(6, 60) // per catalogue entry
 	var wg sync.WaitGroup
 	sem := make(chan struct{}, 16)
